@@ -2284,6 +2284,16 @@ impl StorageEngine {
         Ok(false)
     }
 
+    /// Record a change of `key` for WATCH that was made outside the engine's own mutators: the consumer-group
+    /// handlers change the shared state of a stream they obtained through `get` (groups, consumers, pending
+    /// entries, last-delivered id), which is part of the key's value
+    pub fn touch(&self, db: DatabaseIndex, key: &[u8]) -> Result<()> {
+        let shard = self.get_shard(db, key)?;
+        let shard_guard = shard.write().unwrap();
+        shard_guard.mark_modified(key);
+        Ok(())
+    }
+    
     /// Register a WATCH on a specific key and return baseline counter
     pub fn register_watch(&self, db: DatabaseIndex, key: &[u8]) -> Result<u64> {
         let shard = self.get_shard(db, key)?;
